@@ -373,7 +373,15 @@ def _corr_sc_mac(ctx, g):
     ctx.count(f"corr_sc_mac_{kind}")
 
 
+# --- default values as regenerated obligations (Generated/Defaults.lean <- harness/translate_defaults.py; stream defaults[...])
+import defaults_stream  # noqa: E402
+from common import all_pre_build as pre_build  # noqa: E402,F401,F811  (runs EVERY translate_*.py)
+LEAN_MODULES += ["PyomaVerif.Props.WiringDefaultsC10"]
+THEOREMS += ["PV.WiringDefaults.C10_sc_defaults"]
+
+
 def correspondence(ctx):
+    defaults_stream.correspondence(ctx, props=())
     sc = _sc()
     n = ctx.n(1500, 12000)
     for k in range(n):
